@@ -1,3 +1,184 @@
+import Proofs.C01Examples
+/-!
+C09 — k-medoids refinement never worsens the cost and keeps centers in the data.
+
+`cost n dist` = mean squared frame-to-center distance (`_msq`).  `costsOf n tr` = the cost of the state after
+every accept/reject decision of a trace, in order.  The first group of theorems needs no hypothesis at all on
+the table or on the state the sweeps start from (monotone cost, k kept, centers are frames, rejected ⇒ nothing
+kept); the last group adds what holds from a consistent start (C01's predicate).
+The model is a function of (table, start, proposals, oracle): reproducibility of the real code with a fixed
+seed is checked in harness/props/c09.py (same call twice; recorded random choices replayed through the oracle).
+-/
 namespace C09
-theorem placeholder : True := trivial
+open Ens Ens.Cluster Ens.Cluster.Ex
+
+/-! ### one step / one sweep, from any state -/
+
+/-- accept iff the candidate's cost is strictly lower; the step then carries the whole candidate -/
+theorem pamStep_accept_iff {D : Table} {n : Nat} {s : St} {cid p : Nat} {st : PamStep}
+    (h : pamStep D n s cid p = .ok st) :
+    (st.acc = true ↔ cost n (pamCandidate D n s cid p).arr.dist < cost n s.arr.dist) ∧
+    (st.acc = true → st.after = pamCandidate D n s cid p) :=
+  ⟨(pamStep_spec h).2.2.2.2.1, fun ha => by have := (pamStep_spec h).2.2.2.2.2; simpa [ha] using this⟩
+
+/-- on rejection all four components (distances, labels, center coordinates, center indices) are exactly the
+old ones: the candidate is discarded wholesale -/
+theorem pam_reject_discards_all {D : Table} {n : Nat} {s : St} {cid p : Nat} {st : PamStep}
+    (h : pamStep D n s cid p = .ok st) (hrej : st.acc = false) : st.after = s := by
+  rcases pamStep_after_cases h with ⟨_, e⟩ | ⟨ha, _, _⟩
+  · exact e
+  · rw [ha] at hrej; cases hrej
+
+example : (pamStep D6 6 s6 0 2).toOption.map (fun st => (st.acc, st.oldCost, st.newCost, st.after == s6)) =
+    some (false, 22/3, 47/6, true) := by decide +kernel
+
+/-- every consecutive pair of states in a sweep's history is either identical or strictly cheaper -/
+theorem pam_history_steps {D : Table} {n : Nat} {s s' : St} {props : Option (List Nat)} {orc orc' : List Nat}
+    {tr : List PamStep} (h : pamUpdate D n s props orc = .ok (s', orc', tr)) :
+    (({ s with ctrFrames := s.ctrInds } : St) :: tr.map (·.after)).IsChain
+      (fun a b => b = a ∨ cost n b.arr.dist < cost n a.arr.dist) :=
+  pamLoop_trace_steps _ (pamUpdate_ok h).2.2.2.2.2
+
+/-- one sweep never raises the cost -/
+theorem pamUpdate_cost_le {D : Table} {n : Nat} {s s' : St} {props : Option (List Nat)} {orc orc' : List Nat}
+    {tr : List PamStep} (h : pamUpdate D n s props orc = .ok (s', orc', tr)) :
+    cost n s'.arr.dist ≤ cost n s.arr.dist :=
+  (pamUpdate_costs h).2 _ List.mem_cons_self
+
+/-- a sweep that leaves the cost unchanged leaves the whole state unchanged (centers re-read from the indices) -/
+theorem pamUpdate_cost_eq_imp_same {D : Table} {n : Nat} {s s' : St} {props : Option (List Nat)}
+    {orc orc' : List Nat} {tr : List PamStep} (h : pamUpdate D n s props orc = .ok (s', orc', tr))
+    (he : cost n s'.arr.dist = cost n s.arr.dist) : s' = { s with ctrFrames := s.ctrInds } := by
+  have hl := (pamUpdate_ok h).2.2.2.2.2
+  have key : ∀ (cids : List Nat) {a a' : St} {o o' : List Nat} {t : List PamStep},
+      pamLoop D n props cids a o = .ok (a', o', t) → cost n a'.arr.dist = cost n a.arr.dist → a' = a := by
+    intro cids
+    induction cids with
+    | nil => intro a a' o o' t h _; simp [pamLoop] at h; exact h.1.symm
+    | cons cid rest ih =>
+      intro a a' o o' t h he
+      obtain ⟨p, o1, st, t2, h1, h2, h3, _⟩ := pamLoop_cons_ok h
+      have hfin := (pamLoop_costs rest h3).2 _ List.mem_cons_self
+      rcases pamStep_after_cases h2 with ⟨_, e⟩ | ⟨_, e, hlt⟩
+      · rw [e] at h3; exact ih h3 he
+      · rw [e] at hfin; rw [he] at hfin; exact absurd hlt (not_lt.mpr hfin)
+  exact key _ hl he
+
+/-- the number of clusters is kept by a sweep -/
+theorem pam_keeps_k {D : Table} {n : Nat} {s s' : St} {props : Option (List Nat)} {orc orc' : List Nat}
+    {tr : List PamStep} (h : pamUpdate D n s props orc = .ok (s', orc', tr)) :
+    s'.ctrInds.length = s.ctrInds.length ∧ s'.ctrFrames.length = s.ctrInds.length := by
+  have := pamUpdate_shape h
+  exact ⟨this.len, by rw [this.frames]; exact this.len⟩
+
+/-- after a sweep every center is a frame of the input, and the coordinates are the frames at the indices -/
+theorem pam_centers_are_frames {D : Table} {n : Nat} {s s' : St} {props : Option (List Nat)}
+    {orc orc' : List Nat} {tr : List PamStep} (h : pamUpdate D n s props orc = .ok (s', orc', tr)) :
+    s'.ctrFrames = s'.ctrInds ∧ ∀ c ∈ s'.ctrInds, c < n :=
+  ⟨(pamUpdate_shape h).frames, (pamUpdate_shape h).inds_lt⟩
+
+/-- a random proposal is drawn from the members of the cluster being updated -/
+theorem random_proposal_is_member {n : Nat} {s : St} {cid : Nat} {orc orc' : List Nat} {p : Nat}
+    (h : propose n s cid none orc = .ok (p, orc')) : p < n ∧ s.arr.assign p = (cid : Nat) :=
+  ⟨propose_lt h, propose_random_member h⟩
+
+/-! ### any number of sweeps, from any state -/
+
+/-- along the whole accept/reject history of all sweeps (explicit proposals or any oracle) the cost never
+increases, and the result's cost is the minimum of the history -/
+theorem kmedoids_cost_antitone {D : Table} {n nIters : Nat} {s : St} {props : Option (List Nat)}
+    {orc : List Nat} {r : Run} (h : kmedoidsIterations D n nIters s props orc = .ok r) :
+    (cost n s.arr.dist :: costsOf n r.trace).Pairwise (fun x y => y ≤ x) ∧
+    (∀ x ∈ cost n s.arr.dist :: costsOf n r.trace, cost n r.final.arr.dist ≤ x) := by
+  obtain ⟨k, _, hsw⟩ := kmedoidsIterations_ok h
+  exact sweepsFrom_costs (k+1) hsw
+
+example : (kmedoidsIterations D6 6 2 s6 (some [1, 4]) []).toOption.map
+    (fun r => (cost 6 s6.arr.dist :: costsOf 6 r.trace, cost 6 r.final.arr.dist)) =
+    some ([22/3, 13/2, 3, 3, 3], 3) := by decide +kernel
+
+/-- k and "centers are frames" after any positive number of sweeps, for the result and after every sweep -/
+theorem kmedoids_keeps_k_and_frames {D : Table} {n nIters : Nat} {s : St} {props : Option (List Nat)}
+    {orc : List Nat} {r : Run} (h : kmedoidsIterations D n nIters s props orc = .ok r) :
+    ∀ x ∈ r.final :: r.sweeps, x.ctrInds.length = s.ctrInds.length ∧ x.ctrFrames = x.ctrInds ∧
+      ∀ c ∈ x.ctrInds, c < n := by
+  obtain ⟨k, _, hsw⟩ := kmedoidsIterations_ok h
+  obtain ⟨s', orc', tr, r', h1, h2, e1, _, _, e4⟩ := sweepsFrom_succ_ok hsw
+  have hs' := pamUpdate_shape h1
+  obtain ⟨i1, i2⟩ := sweepsFrom_shape k hs' h2
+  intro x hx
+  have hx' : Shape n s.ctrInds.length x := by
+    rcases List.mem_cons.mp hx with rfl | hx
+    · rw [e1]; exact i1
+    · rw [e4] at hx
+      rcases List.mem_cons.mp hx with rfl | hx
+      · exact hs'
+      · exact i2 x hx
+  exact ⟨hx'.len, hx'.frames, hx'.inds_lt⟩
+
+/-- the model is a function: same table, start, proposals and oracle ⇒ same run (what "reproducible" means
+for the model; the real code's use of its RNG is checked by the correspondence run) -/
+theorem kmedoids_deterministic {D : Table} {n nIters : Nat} {inds : Option (List Nat)} {ad : Option Arr}
+    {props : Option (List Nat)} {orc : List Nat} {r₁ r₂ : Except Err Run}
+    (h₁ : kmedoids D n nIters inds ad props orc = r₁) (h₂ : kmedoids D n nIters inds ad props orc = r₂) :
+    r₁ = r₂ := h₁ ▸ h₂
+
+/-! ### k-hybrid -/
+
+/-- k-hybrid is never worse (in mean squared distance) than the k-centers solution it starts from, and has
+the same number of clusters -/
+theorem hybrid_cost_le_kcenters {D : Table} {n : Nat} {nClusters : Option Nat} {cutoff : Rat}
+    {init : Option (List Nat)} {fuel nIters : Nat} {orc : List Nat} {r : Run}
+    (h : hybrid D n nClusters cutoff init fuel nIters orc = .ok r) :
+    ∃ s, kcenters D n nClusters cutoff init fuel = .ok s ∧
+      cost n r.final.arr.dist ≤ cost n s.arr.dist ∧ r.final.ctrInds.length = s.ctrInds.length := by
+  unfold hybrid at h
+  simp only [bind, Except.bind] at h
+  cases hkc : kcenters D n nClusters cutoff init fuel with
+  | error e => simp [hkc] at h
+  | ok s =>
+    simp only [hkc] at h
+    refine ⟨s, rfl, ?_⟩
+    by_cases hpos : nIters > 0
+    · simp only [hpos, if_true] at h
+      exact ⟨(kmedoids_cost_antitone h).2 _ List.mem_cons_self,
+        (kmedoids_keeps_k_and_frames h _ List.mem_cons_self).1⟩
+    · simp only [hpos, if_false, pure, Except.pure] at h
+      injection h with h; subst h
+      exact ⟨le_refl _, rfl⟩
+
+example : (hybrid D6 6 (some 2) 0 none 8 2 [1, 1, 0, 2]).toOption.map (fun r => cost 6 r.final.arr.dist) = some 3 ∧
+    (kcenters D6 6 (some 2) 0 none 8).toOption.map (fun s => cost 6 s.arr.dist) = some (22/3) := by decide +kernel
+
+/-! ### from a supplied consistent state -/
+
+/-- starting the sweeps from any consistent state (centers, labels, distances) preserves all guarantees:
+the result and every intermediate state are consistent (so centers are distinct frames carrying their own
+label), k is kept and the cost does not rise -/
+theorem warm_start_preserves {D : Table} {n nIters : Nat} (T : TableOK D n) {s : St} (hs : Consistent D n s)
+    {props : Option (List Nat)} {orc : List Nat} {r : Run}
+    (h : kmedoidsIterations D n nIters s props orc = .ok r) :
+    (∀ x ∈ r.final :: r.sweeps, Consistent D n x ∧ x.ctrInds.length = s.ctrInds.length) ∧
+    cost n r.final.arr.dist ≤ cost n s.arr.dist := by
+  obtain ⟨k, _, hsw⟩ := kmedoidsIterations_ok h
+  obtain ⟨c1, c2⟩ := sweepsFrom_consistent T (k+1) hs hsw
+  refine ⟨?_, (kmedoids_cost_antitone h).2 _ List.mem_cons_self⟩
+  intro x hx
+  refine ⟨?_, (kmedoids_keeps_k_and_frames h x hx).1⟩
+  rcases List.mem_cons.mp hx with rfl | hx
+  · exact c1
+  · exact c2 x hx
+
+/-- the same through `kmedoids` itself, for each of its warm-start forms (indices only / all three /
+labels+distances only) -/
+theorem kmedoids_warm_start_preserves {D : Table} {n nIters : Nat} (T : TableOK D n) {inds : Option (List Nat)}
+    {ad : Option Arr} {props : Option (List Nat)} {orc : List Nat} {r : Run}
+    (hw : WarmOK D n inds ad) (h : kmedoids D n nIters inds ad props orc = .ok r) :
+    ∃ s, Consistent D n s ∧ kmedoidsIterations D n nIters s props orc = .ok r ∧
+      (∀ x ∈ r.final :: r.sweeps, Consistent D n x ∧ x.ctrInds.length = s.ctrInds.length) ∧
+      cost n r.final.arr.dist ≤ cost n s.arr.dist := by
+  obtain ⟨s, hs, hit⟩ := kmedoids_start T hw h
+  obtain ⟨a, b⟩ := warm_start_preserves T hs hit
+  exact ⟨s, hs, hit, a, b⟩
+
 end C09
